@@ -1,24 +1,33 @@
-"""Regenerates the seeded-change table of DESIGN.md (between the SEEDTABLE markers) from /verif/seeded/*/meta.json."""
-import glob, json, os, re
+"""Regenerates the generated tables of DESIGN.md (between markers): seeded changes (from /verif/seeded/*/meta.json),
+repaired defects and known findings (from /verif/known_findings.json)."""
+import glob, json, re
+
+def put(s, name, body):
+  tab = "<!-- %s BEGIN -->\n%s\n<!-- %s END -->" % (name, body, name)
+  return re.sub(r"<!-- %s BEGIN -->.*?<!-- %s END -->" % (name, name), lambda _: tab, s, flags=re.S)
+
+esc = lambda t: t.replace("|", "\\|").replace("\n", " ")
 rows = ["| seed | property | change | needs to manifest | checks run (quick) -> exit status, first reported clause |", "|---|---|---|---|---|"]
 for f in sorted(glob.glob("/verif/seeded/*/meta.json")):
   m = json.load(open(f))
   runs = []
   for pid, r in sorted(m.get("checks_run", {}).items()):
-    cl = ""
     ids = r.get("first_identities") or []
-    if ids:
-      mm = re.search(r'"clause": "([^"]+)"', ids[0])
-      cl = " " + mm.group(1) if mm else ""
-    runs.append("%s -> %s%s" % (pid, r.get("rc"), cl))
-  rows.append("| %s | %s | %s | %s | %s |" % (m["id"], m["property"], m["what"].replace("|", "\\|"),
-                                            m["needs_to_manifest"].replace("|", "\\|"), "; ".join(runs) or "not run"))
+    mm = re.search(r'"clause": "([^"]+)"', ids[0]) if ids else None
+    runs.append("%s -> %s%s" % (pid, r.get("rc"), " " + mm.group(1) if mm else ""))
+  rows.append("| %s | %s | %s | %s | %s |" % (m["id"], m["property"], esc(m["what"]), esc(m["needs_to_manifest"]), "; ".join(runs) or "not run"))
+kf = json.load(open("/verif/known_findings.json"))
+fixed = ["| property | commit | what failed on the unchanged tree |", "|---|---|---|"]
+for f in kf["fixed"]:
+  pid, commit, rest = f[len("fixed: property="):].split(" ", 2)
+  fixed.append("| %s | `%s` | %s |" % (pid, commit, esc(rest)))
+finds = ["| id | property | identity (`match`) | what fails |", "|---|---|---|---|"]
+for f in kf["findings"]:
+  finds.append("| %s | %s | `%s` | %s |" % (f["id"], f["property"], esc(json.dumps(f["match"])), esc(f["what"])))
 p = "/verif/DESIGN.md"
 s = open(p).read()
-tab = "<!-- SEEDTABLE BEGIN -->\n" + "\n".join(rows) + "\n<!-- SEEDTABLE END -->"
-if "<!-- SEEDTABLE BEGIN -->" in s:
-  s = re.sub(r"<!-- SEEDTABLE BEGIN -->.*?<!-- SEEDTABLE END -->", lambda _: tab, s, flags=re.S)
-else:
-  s = s.replace("SEEDTABLE", tab, 1)
+s = put(s, "SEEDTABLE", "\n".join(rows))
+s = put(s, "FIXED", "\n".join(fixed))
+s = put(s, "FINDINGS", "\n".join(finds))
 open(p, "w").write(s)
-print(len(rows) - 2, "seeds")
+print(len(rows) - 2, "seeds,", len(fixed) - 2, "fixed,", len(finds) - 2, "findings")
